@@ -74,7 +74,7 @@ type c18NodeSpec struct {
 	HasRaw          bool  // raw-allocatable annotation present (then thresholds refer to it)
 	RawCPU, RawMem  int64
 	RawPods         int64
-	Kind            string // hot | cold | prodhot | free: which usage level the generator prefers for this node
+	Kind            string // hot | cold | prodhot | free: which usage level the generator prefers for this node; relapse | alwayshot: scripted (TestVerifC18Relapse)
 	lvl             int    // generator state only
 	capCPU, capMem  int64 // what the thresholds refer to: raw allocatable when annotated, else status.allocatable
 	capPods         int64
@@ -420,7 +420,26 @@ func c18GenNodeRound(t *rapid.T, n *c18NodeSpec, round int, pool *c18PoolSpec, m
 	if n.lvl == 2 {
 		keep = 6
 	}
-	if n.lvl < 0 || !c18P(t, lbl+"Keep", keep) {
+	// scripted kinds: "alwayshot" is overloaded in every round; "relapse" is overloaded for ConsecutiveAbnormalities+1 rounds with
+	// (mostly) protected pods so that it stays abnormal, then underused for one round, then overloaded again with evictable pods
+	scripted, protected, noProd := false, false, false
+	if pool.Anom != nil && (n.Kind == "alwayshot" || n.Kind == "relapse") {
+		N := int(pool.Anom.N)
+		switch {
+		case n.Kind == "alwayshot":
+			scripted, n.lvl = true, 2
+		case round <= N:
+			scripted, n.lvl = true, 2
+			protected = c18P(t, lbl+"Protected", 7)
+		case round == N+1:
+			scripted, n.lvl, noProd = true, 0, true
+		case round == N+2:
+			scripted, n.lvl = true, 2
+		}
+	}
+	if scripted {
+		// level set by the script
+	} else if n.lvl < 0 || !c18P(t, lbl+"Keep", keep) {
 		switch n.Kind {
 		case "hot":
 			n.lvl = []int{2, 2, 2, 2, 2, 2, 1, 0}[c18U8(t, lbl+"Level")]
@@ -543,6 +562,12 @@ func c18GenNodeRound(t *rapid.T, n *c18NodeSpec, round int, pool *c18PoolSpec, m
 		}
 		if prodHot {
 			p.Prod = true
+		}
+		if noProd {
+			p.Prod = false
+		}
+		if protected {
+			p.EvictorOK = false
 		}
 		nr.Pods = append(nr.Pods, p)
 		if p.HasMetric {
@@ -726,6 +751,15 @@ func c18PossiblyBelowAll(u c18Vec, low c18Thr, res []corev1.ResourceName) bool {
 	return true
 }
 
+func c18DefinitelyBelowAll(u c18Vec, low c18Thr, res []corev1.ResourceName) bool {
+	for _, r := range res {
+		if u[r] > low[r].Lo {
+			return false
+		}
+	}
+	return true
+}
+
 func c18PoolResources(p *c18PoolSpec) []corev1.ResourceName {
 	set := map[corev1.ResourceName]bool{c18Mem: true} // memory is always considered
 	for k := range p.NodeThr {
@@ -848,6 +882,8 @@ type c18Run struct {
 	everWindow bool // reached a run of N at least once
 	restarts   int  // certain returns to ok after having been possibly abnormal
 	hist       []int8
+
+	lastRestartByUnderused bool // statistics only
 }
 
 func (r *c18Run) observe(state int8) {
@@ -878,6 +914,7 @@ func (r *c18Run) observe(state int8) {
 func (r *c18Run) restart() {
 	if r.anom {
 		r.restarts++
+		r.lastRestartByUnderused = false
 	}
 	r.anom, r.run, r.normals = false, 0, 0
 }
@@ -930,12 +967,33 @@ func c18Silence() {
 	klog.SetOutput(io.Discard)
 }
 
-func c18RunCase(t *rapid.T, c *vk.Case, viaConstructor bool) {
+// relapse = the scripted shape of TestVerifC18Relapse: one pool with absolute thresholds (mostly without prod thresholds),
+// ConsecutiveAbnormalities 2-3, node n0 "relapse", n1 "alwayshot", n2 "cold"; everything else is generated as usual. The draw
+// sequence of the unscripted tests is unchanged.
+func c18RunCase(t *rapid.T, c *vk.Case, viaConstructor bool, relapse bool) {
 	maxRounds := 8
-	nNodes := rapid.IntRange(2, 6).Draw(t, "nodes")
-	twoPools := nNodes >= 4 && c18P(t, "twoPools", 2)
+	var nNodes int
+	if relapse {
+		nNodes = rapid.IntRange(3, 5).Draw(t, "nodes")
+	} else {
+		nNodes = rapid.IntRange(2, 6).Draw(t, "nodes")
+	}
+	twoPools := !relapse && nNodes >= 4 && c18P(t, "twoPools", 2)
 	var pools []*c18PoolSpec
-	if twoPools {
+	if relapse {
+		p := c18GenPool(t, "poolAll", "")
+		p.Deviation = false
+		delete(p.NodeThr, c18Pods)
+		if len(p.NodeThr) == 0 {
+			p.NodeThr[c18CPU] = [2]int{2 * 30, 2 * 60}
+			p.ProdThr = map[corev1.ResourceName][2]int{}
+		}
+		if c18P(t, "relapseNoProd", 6) {
+			p.ProdThr = map[corev1.ResourceName][2]int{}
+		}
+		p.Anom = &c18Anom{N: uint32([]int{2, 2, 2, 3}[c18U8(t, "relapseN")%4]), M: uint32([]int{1, 2, 2, 3}[c18U8(t, "relapseM")%4]), Timeout: "1h0m0s"}
+		pools = []*c18PoolSpec{p}
+	} else if twoPools {
 		pools = []*c18PoolSpec{c18GenPool(t, "poolA", "a"), c18GenPool(t, "poolB", "b")}
 	} else if c18P(t, "selectorPool", 2) {
 		pools = []*c18PoolSpec{c18GenPool(t, "poolA", "a")}
@@ -943,8 +1001,8 @@ func c18RunCase(t *rapid.T, c *vk.Case, viaConstructor bool) {
 		pools = []*c18PoolSpec{c18GenPool(t, "poolAll", "")}
 	}
 	nodes := make([]*c18NodeSpec, nNodes)
-	shaped := c18P(t, "shaped", 6)
-	metricTrouble := c18P(t, "metricTrouble", 3)
+	shaped := relapse || c18P(t, "shaped", 6)
+	metricTrouble := !relapse && c18P(t, "metricTrouble", 3)
 	for i := range nodes {
 		n := c18GenNode(t, i)
 		switch {
@@ -968,6 +1026,12 @@ func c18RunCase(t *rapid.T, c *vk.Case, viaConstructor bool) {
 		}
 		if n.Pool >= 0 && len(pools[n.Pool].ProdThr) > 0 && !pools[n.Pool].Deviation && n.Kind != "cold" && c18P(t, n.Name+"ProdHot", 3) {
 			n.Kind = "prodhot"
+		}
+		if relapse && i < 3 {
+			n.Kind = []string{"relapse", "alwayshot", "cold"}[i]
+			if i != 1 {
+				n.Unsched = false // an unschedulable node never counts as underused
+			}
 		}
 		nodes[i] = n
 	}
@@ -998,6 +1062,10 @@ func c18RunCase(t *rapid.T, c *vk.Case, viaConstructor bool) {
 		a.FilterLimit = []int{0, 1, 1, 1, 2, 2, 3, 4}[c18U8(t, "filterLimit")]
 	}
 	rounds := []int{1, 2, 3, 4, 5, 6, 7, 8}[c18U8(t, "rounds")]
+	if relapse {
+		a.DryRun, a.NumberOfNodes = false, 0
+		rounds = int(pools[0].Anom.N) + 3 + c18U8(t, "relapseExtraRounds")%2
+	}
 	if maxRounds < rounds {
 		rounds = maxRounds
 	}
@@ -1122,6 +1190,10 @@ func c18RunCase(t *rapid.T, c *vk.Case, viaConstructor bool) {
 	for i, p := range pools {
 		poolRes[i] = c18PoolResources(p)
 	}
+	// certainRun: consecutive measured rounds (ending with the last one) in which the node was certainly above a node-level high
+	// threshold and nothing was moved off it; with ConsecutiveAbnormalities+1 of them (and an anomaly timeout of hours) the node is
+	// certainly treated as abnormal, whatever the detector state was before
+	certainRun := map[string]int{}
 	runNode := map[string]*c18Run{}
 	runProd := map[string]*c18Run{}
 	for _, n := range nodes {
@@ -1146,6 +1218,7 @@ func c18RunCase(t *rapid.T, c *vk.Case, viaConstructor bool) {
 		sawFilteredLeft, sawAmbiguous, sawNoHigh, sawNoLow, sawUnmeasured, sawUnschedLow     bool
 		sawMultiSource, sawFailedEvict, sawNoMetricEvict                                    bool
 		sawLimitReached, sawBalancerRestart, sawRestart, sawEvictAfterRestart               bool
+		sawUnderusedReset, sawGatedAfterUnderusedReset                                      bool
 		totalEvictions                                                                       int
 		ntKey                                                                                []any
 	)
@@ -1470,6 +1543,66 @@ func c18RunCase(t *rapid.T, c *vk.Case, viaConstructor bool) {
 		if len(sources) > 1 {
 			sawMultiSource = true
 		}
+		// ---- certain underused-node reset: when the pool has a node that is treated as abnormal and an underused node, the
+		// balancer declares every underused node normal before it evicts: a node certainly below all node-level low thresholds (and
+		// not a prod hotspot) restarts its node-level run, a node between the node-level thresholds that is certainly below all prod
+		// low thresholds restarts its prod-level run. "Has an abnormal node" is certain when an Evict call was made in the pool in
+		// this round, or when another node is certainly abnormal by its certainRun.
+		for _, n := range nodes {
+			st := states[n.Name]
+			if n.Pool < 0 || !st.Measured {
+				continue
+			}
+			if c18DefinitelyAbove(st.Usage, st.NodeHigh, poolRes[n.Pool]) {
+				certainRun[n.Name]++
+			} else {
+				certainRun[n.Name] = 0
+			}
+		}
+		for _, n := range nodes {
+			st := states[n.Name]
+			if n.Pool < 0 || !st.Measured || n.Unsched || runNode[n.Name] == nil || pools[n.Pool].Anom.N <= 1 {
+				continue
+			}
+			res := poolRes[n.Pool]
+			reached := false
+			for _, call := range ev.calls {
+				if m := states[call.Node]; m != nil && m.Spec.Pool == n.Pool {
+					reached = true
+				}
+			}
+			if !reached && pools[n.Pool].Anom.Timeout != "1ns" {
+				for _, m := range poolMembers[n.Pool] {
+					if m.Spec != n && m.Measured && certainRun[m.Spec.Name] > int(pools[n.Pool].Anom.N) {
+						reached = true
+					}
+				}
+			}
+			if !reached {
+				continue
+			}
+			nodeLow := c18DefinitelyBelowAll(st.Usage, st.NodeLow, res)
+			prodCalm := !c18PossiblyAbove(st.Prod, st.ProdHigh, res)
+			if nodeLow && prodCalm {
+				was := runNode[n.Name].anom
+				runNode[n.Name].restart()
+				if was {
+					sawUnderusedReset, runNode[n.Name].lastRestartByUnderused = true, true
+				}
+			}
+			if !c18PossiblyBelowAll(st.Usage, st.NodeLow, res) && !c18PossiblyAbove(st.Usage, st.NodeHigh, res) && prodCalm && c18DefinitelyBelowAll(st.Prod, st.ProdLow, res) {
+				was := runProd[n.Name].anom
+				runProd[n.Name].restart()
+				if was {
+					sawUnderusedReset, runProd[n.Name].lastRestartByUnderused = true, true
+				}
+			}
+		}
+		for _, n := range nodes { // nothing moved off the node keeps the certainRun alive
+			if evictedAll[n.Name] != nil && evictedAll[n.Name][c18Pods] > 0 {
+				certainRun[n.Name] = 0
+			}
+		}
 		// ---- classes: why did it stop on each source node / why was nothing evicted
 		for _, n := range nodes {
 			st := states[n.Name]
@@ -1520,6 +1653,9 @@ func c18RunCase(t *rapid.T, c *vk.Case, viaConstructor bool) {
 				}
 			} else if gatedPool && c18DefinitelyAbove(st.Usage, st.NodeHigh, res) && left > 0 && !runNode[n.Name].anom {
 				sawGated = true
+				if runNode[n.Name].restarts > 0 && runNode[n.Name].lastRestartByUnderused {
+					sawGatedAfterUnderusedReset = true
+				}
 			}
 		}
 		for _, n := range nodes {
@@ -1553,6 +1689,9 @@ func c18RunCase(t *rapid.T, c *vk.Case, viaConstructor bool) {
 	c.ClassIf(sawLimitReached, "evictor-limit-reached-during-round")
 	c.ClassIf(sawBalancerRestart, "run-restarted-by-balancer-stop-by-usage")
 	c.ClassIf(sawRestart, "abnormal-node-certainly-returned-to-normal")
+	c.ClassIf(sawUnderusedReset, "abnormal-node-reset-because-underused")
+	c.ClassIf(sawGatedAfterUnderusedReset, "overloaded-again-after-underused-reset-not-evicted")
+	c.ClassIf(relapse, "scripted-relapse-shape")
 	c.ClassIf(sawEvictAfterRestart, "eviction-after-return-to-normal-with-new-run")
 	c.ClassIf(a.DryRun, "dry-run")
 	c.ClassIf(a.NodeFit, "node-fit")
@@ -1594,7 +1733,7 @@ func TestVerifC18Balance(t *testing.T) {
 	rapid.Check(t, func(t *rapid.T) {
 		c := rec.Begin()
 		defer c.End()
-		c18RunCase(t, c, false)
+		c18RunCase(t, c, false, false)
 	})
 }
 
@@ -1605,6 +1744,17 @@ func TestVerifC18BalanceViaConstructor(t *testing.T) {
 	rapid.Check(t, func(t *rapid.T) {
 		c := rec.Begin()
 		defer c.End()
-		c18RunCase(t, c, true)
+		c18RunCase(t, c, true, false)
+	})
+}
+
+// scripted shape: a node is abnormal, then underused while another node is abnormal, then overloaded again for a single round
+func TestVerifC18Relapse(t *testing.T) {
+	c18Silence()
+	rec := vk.New(t, "C18", "relapseAfterUnderusedRound")
+	rapid.Check(t, func(t *rapid.T) {
+		c := rec.Begin()
+		defer c.End()
+		c18RunCase(t, c, false, true)
 	})
 }
